@@ -843,6 +843,30 @@ func ruleC01Membership(c *Ctx) {
 		}
 		results[v] = judge(fo, ex, v == notInV)
 	}
+	// element normalisation agrees: a row of a subquery (a Map) stands for the value of its only column in BOTH arms
+	mapArms := map[int64]bool{}
+	allInstrs(f, func(b *ssa.BasicBlock, in ssa.Instruction) {
+		ta, ok := in.(*ssa.TypeAssert)
+		if !ok || shortType(ta.AssertedType) != "Map" {
+			return
+		}
+		for _, fc := range relFacts(factsAt(b)) {
+			if fc.r != relEQ {
+				continue
+			}
+			if k, isK := constIntOf(fc.y); isK && (k == inV || k == notInV) {
+				if ft := NewTB().Of(fc.x); ft.Op == "field" && ft.Name == "Operator" {
+					mapArms[k] = true
+				}
+			}
+		}
+	})
+	c.Check(mapArms[inV] == mapArms[notInV], "c01.in-siblings", key+"/row-normalisation", c.P.Pos(f.Pos()), "IN and NOT IN both read the single column of a subquery row", func() string {
+		if mapArms[inV] {
+			return "IN unwraps a subquery row (a Map) to its only column, NOT IN compares the left value with the row itself: `x NOT IN (SELECT ...)` is true for every row"
+		}
+		return "NOT IN unwraps a subquery row (a Map) to its only column, IN does not"
+	}())
 	c.Check(results[inV].ok, "c01.in-siblings", key+"/InOp", c.P.Pos(f.Pos()), "found=>true, exhausted=>false, oracle compare.Compare(left, element)==0", results[inV].why)
 	c.Check(results[notInV].ok, "c01.in-siblings", key+"/NotInOp", c.P.Pos(f.Pos()), "found=>false, exhausted=>true, same oracle as IN", results[notInV].why)
 }
@@ -897,7 +921,7 @@ func ruleC01Between(c *Ctx) {
 // ---- c01.like-escape ----------------------------------------------------------------------
 
 func ruleC01Like(c *Ctx) {
-	c.Doc("c01.like-escape", "LIKE translation: the pattern passes through regexp.QuoteMeta before `_`->`.`-class and `%`->`.*`-class substitutions (exactly those two), the regexp is anchored at both ends, subject and pattern are case-folded by the same function; LIKE returns the match and NOT LIKE its negation, subject from expr.Left and pattern from expr.Right")
+	c.Doc("c01.like-escape", "LIKE translation: the pattern passes through regexp.QuoteMeta before `_`->`.`-class and `%`->`.*`-class substitutions (exactly those two; the matchers include the line feed: s flag or an explicit class), the regexp is anchored at both ends, subject and pattern are case-folded by the same function; LIKE returns the match and NOT LIKE its negation, subject from expr.Left and pattern from expr.Right")
 	// the function whose argument reaches regexp.Match*/Compile*
 	var like *ssa.Function
 	var matchCall *ssa.Call
@@ -1028,6 +1052,16 @@ func ruleC01Like(c *Ctx) {
 	}
 	if !anyRun[subs["%"]] {
 		why = append(why, "`%` is not translated to an any-run matcher")
+	}
+	// `.` excludes the line feed unless the s flag is set: the wildcards must match every character
+	dotAll := false
+	if i := strings.Index(prefix, "(?"); i >= 0 {
+		if j := strings.Index(prefix[i:], ")"); j > 0 && strings.Contains(prefix[i:i+j], "s") {
+			dotAll = true
+		}
+	}
+	if (subs["_"] == "." || subs["%"] == ".*") && !dotAll {
+		why = append(why, "the wildcards are translated to `.`/`.*` without the s flag: `%` and `_` do not match a line feed in the value")
 	}
 	for o := range subs {
 		if o != "_" && o != "%" {
